@@ -253,6 +253,15 @@ func (c *Conn) serve() {
 }
 
 func (c *Conn) pushFramesLoop() {
+	// this goroutine runs outside the per-connection recover of the server: a
+	// pixel format it cannot serve must end the connection, not the process
+	defer func() {
+		if e := recover(); e != nil {
+			log.Debugf("Client disconnect: %v", e)
+			c.c.Close()
+		}
+	}()
+
 	for {
 		select {
 		case ur, ok := <-c.fbupc:
